@@ -115,7 +115,7 @@ def c12(tier):
                 "PascalCase of the snake_case words or the rename, parameters object present iff the method has arguments, "
                 "members = wire names of the arguments that are not None, more / oneway exactly when annotated) and TLC checks "
                 "over the whole declaration space that every PascalCase name is a legal Varlink member name and that the "
-                "expectation omits exactly the None arguments; TLC samples the space (names of 1..4 words with digits, 4 "
+                "expectation omits exactly the None arguments; TLC draws declarations from the space (names of 1..4 words with digits, 4 "
                 "method renames, plain / more / oneway, 0..4 parameters of 9 classes incl. Option, slices, a borrowed struct "
                 "and generics, parameter renames, elided / explicit lifetimes, unit / struct outputs); gen/proxy.py emits one "
                 "#[proxy] trait per declaration, the crate is compiled against /repo's macro (a compile failure is a "
